@@ -2,9 +2,11 @@
 # Runs, for every confirmed seeded change under /verif/seeded, the quick check of the property it breaks
 # (apply to /repo, run, undo).  Writes /verif/seeded/RESULTS.tsv.  /repo must be clean and otherwise unused meanwhile.
 cd /verif
-OUT=/verif/seeded/RESULTS.tsv
+PAT="${1:-*}"; OUT="${2:-/verif/seeded/RESULTS.tsv}"
+# usage: tools/seed_matrix.sh [glob of seed ids, default all] [output tsv]
 echo -e "seed\tproperty\tcheck\texit\tviolations\twall_s" > $OUT
-for d in /verif/seeded/*/; do
+for d in /verif/seeded/$PAT/; do
+  [ -f $d/patch.diff ] || continue
   sid=$(basename $d); prop=$(python3 -c "import json;print(json.load(open('$d/meta.json'))['property'])")
   if ! git -C /repo diff --quiet; then echo "/repo dirty"; exit 3; fi
   if ! git -C /repo apply --check $d/patch.diff 2>/dev/null; then echo -e "$sid\t$prop\t$prop\tNOAPPLY\t-\t-" >> $OUT; continue; fi
